@@ -47,6 +47,19 @@ CLAIMS = {
             "suspensions are constant-zero delays. Decides these shapes on all paths; does not bound run-time delays.",
             "Trusted: configured latencies are non-negative; zero-delay yields cannot advance the clock.",
             "DESIGN.md §5 C07"),
+    "C06": ("sibling agreement of crash checks over the Event hierarchy + closure-write classification of every fault (composability) + helper shape rules + handle coverage",
+            "Decides on the source that every invoke consults the crash flag before dispatch, that no fault closure uses a boolean/absolute/"
+            "set-difference restore (only counted, layered or recomputed-from-active-set forms), that the bookkeeping helpers have the shape "
+            "that makes overlapping windows compose and keeps held+available==capacity, that activation/deactivation are inverse, and that "
+            "handles record and cancel exactly their events.",
+            "Trusted: fault closures run atomically; exact instants are user-supplied.",
+            "DESIGN.md §5 C06"),
+    "C09": ("guard-dominance table (must-facts with kills at writes/calls/suspensions, preconditions at call sites) + wake-loop path rules + future-wiring of blocking waits",
+            "Every capacity-taking statement of every primitive is dominated by the comparison proving its bound, every return is bounded or "
+            "clamped, wake loops remove exactly the head waiter they wake and stop at the first that does not fit, blocked callers park on "
+            "a SimFuture wired to their waiter's callback, the connection pool reserves its slot before suspending.",
+            "Trusted: handlers atomic between suspension points; SimFuture semantics (C02).",
+            "DESIGN.md §5 C09"),
 }
 
 NOT_YET = "rule pack not built yet in this session (see DESIGN.md §11); no check is claimed for it"
